@@ -34,13 +34,16 @@ pub struct Sc { pub mode: Mode, pub pre_datagrams: usize, pub live_datagrams: us
     /// traffic that does NOT end with the stop: a datagram every 5 ms until the listener has returned
     pub flood: bool,
     /// a thread arms and cancels far-future signal timers every 10 ms until the listener has returned
-    pub timer_churn: bool }
+    pub timer_churn: bool,
+    /// a datagram every 7 ms from BEFORE the listener call on (the hand-over happens under traffic)
+    pub pre_flood: bool }
 
 struct Shared {
     in_cb: AtomicBool,
     overlaps: AtomicU64,
     calls: AtomicUsize,
     stopped_at_call: AtomicUsize, // usize::MAX = not yet
+    first_cb_ns: AtomicU64,       // 0 = no callback yet; nanoseconds since the harness epoch
     calls_after_stop: AtomicU64,
     net_order: Mutex<Vec<u64>>,    // payload numbers of network messages in delivery order
     log: Mutex<Vec<String>>,
@@ -51,6 +54,7 @@ fn on_event(sh: &Shared, handler: &NodeHandler<u64>, sc: &Sc, kind: char, payloa
     // kind 'n' network, 's' signal
     if sh.in_cb.swap(true, Ordering::SeqCst) { sh.overlaps.fetch_add(1, Ordering::SeqCst); }
     let call = sh.calls.fetch_add(1, Ordering::SeqCst);
+    if call == 0 { sh.first_cb_ns.store(epoch().elapsed().as_nanos() as u64 + 1, Ordering::SeqCst); }
     if sh.stopped_at_call.load(Ordering::SeqCst) != usize::MAX { sh.calls_after_stop.fetch_add(1, Ordering::SeqCst); }
     verif::trace("cb_enter", ((kind as u64) << 32) | (payload & 0xffff_ffff));
     if kind == 'n' { sh.net_order.lock().unwrap().push(payload); }
@@ -77,10 +81,13 @@ fn on_event(sh: &Shared, handler: &NodeHandler<u64>, sc: &Sc, kind: char, payloa
     sh.in_cb.store(false, Ordering::SeqCst);
 }
 
+fn epoch() -> Instant { static E: std::sync::OnceLock<Instant> = std::sync::OnceLock::new(); *E.get_or_init(Instant::now) }
+
 pub fn run_scenario(sc: &Sc, out: &mut Out) -> Option<String> {
+    let _ = epoch();
     let _ = verif::take();
     let (handler, listener) = node::split::<u64>();
-    let sh = Arc::new(Shared { in_cb: AtomicBool::new(false), overlaps: AtomicU64::new(0), calls: AtomicUsize::new(0), stopped_at_call: AtomicUsize::new(usize::MAX), calls_after_stop: AtomicU64::new(0), net_order: Mutex::new(vec![]), log: Mutex::new(vec![]), inject: Mutex::new(None) });
+    let sh = Arc::new(Shared { in_cb: AtomicBool::new(false), overlaps: AtomicU64::new(0), calls: AtomicUsize::new(0), stopped_at_call: AtomicUsize::new(usize::MAX), first_cb_ns: AtomicU64::new(0), calls_after_stop: AtomicU64::new(0), net_order: Mutex::new(vec![]), log: Mutex::new(vec![]), inject: Mutex::new(None) });
     let (_lid, addr) = handler.network().listen(Transport::Udp, "127.0.0.1:0").unwrap();
     let sock = UdpSocket::bind("127.0.0.1:0").unwrap();
     *sh.inject.lock().unwrap() = Some((UdpSocket::bind("127.0.0.1:0").unwrap(), addr));
@@ -97,12 +104,20 @@ pub fn run_scenario(sc: &Sc, out: &mut Out) -> Option<String> {
         drop(c);
     }
     if sc.pre_datagrams > 0 || sc.pre_session { std::thread::sleep(Duration::from_millis(70)); } // > one SAMPLING_TIMEOUT
+    let bg_stop = Arc::new(AtomicBool::new(false));
+    let mut bg = vec![];
+    if sc.pre_flood {
+        let (bg_stop, addr) = (bg_stop.clone(), addr);
+        bg.push(std::thread::spawn(move || { let s = UdpSocket::bind("127.0.0.1:0").unwrap(); while !bg_stop.load(Ordering::SeqCst) { let _ = s.send_to(&900_004u64.to_le_bytes(), addr); std::thread::sleep(Duration::from_millis(7)); } }));
+        std::thread::sleep(Duration::from_millis(80));
+    }
     if sc.stop == StopAt::BeforeStart { handler.stop(); verif::trace("ext_stop", 0); }
     // signals queued before the start too
     for k in 0..sc.signals { match k % 3 { 0 => handler.signals().send(k as u64), 1 => handler.signals().send_with_priority(k as u64), _ => { handler.signals().send_with_timer(k as u64, Duration::from_millis(2 * k as u64)); } } }
     verif::trace("start", 0);
     let returned = Arc::new(AtomicBool::new(false));
     let t_start = Instant::now();
+    let start_ns = epoch().elapsed().as_nanos() as u64;
     let cb = { let (sh, handler, sc2) = (sh.clone(), handler.clone(), Sc { ..*sc }); move |ev: NodeEvent<u64>| match ev {
         NodeEvent::Network(NetEvent::Message(_, d)) => { let p = if d.len() == 8 { u64::from_le_bytes(d.try_into().unwrap()) } else { 999_999 }; on_event(&sh, &handler, &sc2, 'n', p) }
         NodeEvent::Network(NetEvent::Accepted(..)) => on_event(&sh, &handler, &sc2, 'n', 888_001),
@@ -138,8 +153,6 @@ pub fn run_scenario(sc: &Sc, out: &mut Out) -> Option<String> {
     // live activity
     std::thread::sleep(Duration::from_millis(15));
     for i in 0..sc.live_datagrams { sock.send_to(&((sc.pre_datagrams + i) as u64).to_le_bytes(), addr).unwrap(); std::thread::sleep(Duration::from_micros(400)); }
-    let bg_stop = Arc::new(AtomicBool::new(false));
-    let mut bg = vec![];
     if sc.flood {
         let (bg_stop, addr) = (bg_stop.clone(), addr);
         bg.push(std::thread::spawn(move || { let s = UdpSocket::bind("127.0.0.1:0").unwrap(); while !bg_stop.load(Ordering::SeqCst) { let _ = s.send_to(&900_002u64.to_le_bytes(), addr); std::thread::sleep(Duration::from_millis(5)); } }));
@@ -176,7 +189,7 @@ pub fn run_scenario(sc: &Sc, out: &mut Out) -> Option<String> {
     if ret { lt.join().unwrap(); }
     let recs = verif::take();
     // ---- implementation-level oracles ----------------------------------------------------------
-    let name = format!("{:?} pre={} live={} signals={} stop={:?}{}", sc.mode, sc.pre_datagrams, sc.live_datagrams, sc.signals, sc.stop, format!("{}{}{}{}", if sc.inflight { " with the other thread queued on the callback lock" } else { "" }, if sc.live_session_stop { "; stop() from the callback of a message whose sender closed right behind it" } else { "" }, if sc.flood { "; a datagram keeps arriving every 5 ms also after the stop" } else { "" }, if sc.timer_churn { "; far timers are armed and cancelled every 10 ms also after the stop" } else { "" }));
+    let name = format!("{:?} pre={} live={} signals={} stop={:?}{}", sc.mode, sc.pre_datagrams, sc.live_datagrams, sc.signals, sc.stop, format!("{}{}{}{}", if sc.inflight { " with the other thread queued on the callback lock" } else { "" }, if sc.live_session_stop { "; stop() from the callback of a message whose sender closed right behind it" } else { "" }, if sc.flood { "; a datagram keeps arriving every 5 ms also after the stop" } else { "" }, if sc.timer_churn { "; far timers are armed and cancelled every 10 ms also after the stop" } else { "" }) + if sc.pre_flood { "; a datagram every 7 ms from before the listener call on" } else { "" });
     if sh.overlaps.load(Ordering::SeqCst) > 0 { out.violation(&format!("[C05] the event callback was entered while another invocation was still running ({} overlaps) in {}", sh.overlaps.load(Ordering::SeqCst), name)); }
     if sc.mode != Mode::Enqueue {
         let after = sh.calls_after_stop.load(Ordering::SeqCst);
@@ -204,6 +217,14 @@ pub fn run_scenario(sc: &Sc, out: &mut Out) -> Option<String> {
         let cached_expected: Vec<u64> = (0..sc.pre_datagrams as u64).collect();
         if msgs.len() < cached_expected.len() || msgs[..cached_expected.len()] != cached_expected[..] {
             out.violation(&format!("[C15] {} datagrams arrived >= 70 ms before the listener call; delivered first: {:?} ({})", sc.pre_datagrams, &msgs[..msgs.len().min(12)], name));
+        }
+    }
+    if sc.pre_flood && sc.stop != StopAt::BeforeStart {
+        // the hand-over from the cache thread happens although datagrams keep arriving: the callback
+        // gets its first event soon after the listener call
+        let first = sh.first_cb_ns.load(Ordering::SeqCst);
+        if first == 0 || first.saturating_sub(start_ns) > 1_000_000_000 {
+            out.violation(&format!("[C15,C18] a datagram arrives every 7 ms from before the listener call on: the first event reached the callback {} after the call (cached and live events must be delivered whatever the traffic at the moment of the hand-over) ({})", if first == 0 { "never".to_string() } else { format!("{} ms", first.saturating_sub(start_ns) / 1_000_000) }, name));
         }
     }
     out.count(&format!("mode_{:?}", sc.mode));
@@ -326,33 +347,36 @@ pub fn run(a: &Args) {
     let mut r = Rng::new(a.seed);
     let mut scs: Vec<Sc> = vec![];
     for mode in [Mode::ForEach, Mode::ForEachAsync, Mode::Enqueue] {
-        scs.push(Sc { mode, pre_datagrams: 4, live_datagrams: 6, signals: 6, stop: StopAt::BeforeStart, cb_micros: 0, inflight: false, pre_session: false, live_session_stop: false, flood: false, timer_churn: false });
-        scs.push(Sc { mode, pre_datagrams: 0, live_datagrams: 0, signals: 0, stop: StopAt::BeforeStart, cb_micros: 0, inflight: false, pre_session: false, live_session_stop: false, flood: false, timer_churn: false });
+        scs.push(Sc { mode, pre_datagrams: 4, live_datagrams: 6, signals: 6, stop: StopAt::BeforeStart, cb_micros: 0, inflight: false, pre_session: false, live_session_stop: false, flood: false, timer_churn: false, pre_flood: false });
+        scs.push(Sc { mode, pre_datagrams: 0, live_datagrams: 0, signals: 0, stop: StopAt::BeforeStart, cb_micros: 0, inflight: false, pre_session: false, live_session_stop: false, flood: false, timer_churn: false, pre_flood: false });
         let max_idx = if a.thorough { 12 } else { 5 };
         for k in 0..max_idx {
-            scs.push(Sc { mode, pre_datagrams: 5, live_datagrams: 8, signals: 6, stop: StopAt::NetEvent(k), cb_micros: 200, inflight: false, pre_session: false, live_session_stop: false, flood: false, timer_churn: false });
-            scs.push(Sc { mode, pre_datagrams: 3, live_datagrams: 10, signals: 8, stop: StopAt::Signal(k), cb_micros: 300, inflight: false, pre_session: false, live_session_stop: false, flood: false, timer_churn: false });
+            scs.push(Sc { mode, pre_datagrams: 5, live_datagrams: 8, signals: 6, stop: StopAt::NetEvent(k), cb_micros: 200, inflight: false, pre_session: false, live_session_stop: false, flood: false, timer_churn: false, pre_flood: false });
+            scs.push(Sc { mode, pre_datagrams: 3, live_datagrams: 10, signals: 8, stop: StopAt::Signal(k), cb_micros: 300, inflight: false, pre_session: false, live_session_stop: false, flood: false, timer_churn: false, pre_flood: false });
         }
         for k in 0..(if a.thorough { 6 } else { 2 }) {
-            scs.push(Sc { mode, pre_datagrams: 2, live_datagrams: 6, signals: 6, stop: StopAt::Signal(2 + k), cb_micros: 100, inflight: true, pre_session: false, live_session_stop: false, flood: false, timer_churn: false });
-            scs.push(Sc { mode, pre_datagrams: 2, live_datagrams: 8, signals: 4, stop: StopAt::NetEvent(3 + k), cb_micros: 100, inflight: true, pre_session: false, live_session_stop: false, flood: false, timer_churn: false });
+            scs.push(Sc { mode, pre_datagrams: 2, live_datagrams: 6, signals: 6, stop: StopAt::Signal(2 + k), cb_micros: 100, inflight: true, pre_session: false, live_session_stop: false, flood: false, timer_churn: false, pre_flood: false });
+            scs.push(Sc { mode, pre_datagrams: 2, live_datagrams: 8, signals: 4, stop: StopAt::NetEvent(3 + k), cb_micros: 100, inflight: true, pre_session: false, live_session_stop: false, flood: false, timer_churn: false, pre_flood: false });
         }
-        scs.push(Sc { mode, pre_datagrams: 3, live_datagrams: 5, signals: 4, stop: StopAt::External(150), cb_micros: 0, inflight: false, pre_session: true, live_session_stop: false, flood: false, timer_churn: false });
-        scs.push(Sc { mode, pre_datagrams: 0, live_datagrams: 4, signals: 0, stop: StopAt::NetEvent(8), cb_micros: 100, inflight: false, pre_session: true, live_session_stop: false, flood: false, timer_churn: false });
-        scs.push(Sc { mode, pre_datagrams: 0, live_datagrams: 3, signals: 2, stop: StopAt::NetEvent(99), cb_micros: 0, inflight: false, pre_session: false, live_session_stop: true, flood: false, timer_churn: false });
-        scs.push(Sc { mode, pre_datagrams: 2, live_datagrams: 5, signals: 3, stop: StopAt::External(120), cb_micros: 100, inflight: false, pre_session: false, live_session_stop: false, flood: true, timer_churn: false });
-        scs.push(Sc { mode, pre_datagrams: 2, live_datagrams: 5, signals: 3, stop: StopAt::NetEvent(4), cb_micros: 100, inflight: false, pre_session: false, live_session_stop: false, flood: false, timer_churn: true });
-        scs.push(Sc { mode, pre_datagrams: 0, live_datagrams: 4, signals: 3, stop: StopAt::Signal(1), cb_micros: 0, inflight: false, pre_session: false, live_session_stop: false, flood: true, timer_churn: true });
+        scs.push(Sc { mode, pre_datagrams: 3, live_datagrams: 5, signals: 4, stop: StopAt::External(150), cb_micros: 0, inflight: false, pre_session: true, live_session_stop: false, flood: false, timer_churn: false, pre_flood: false });
+        scs.push(Sc { mode, pre_datagrams: 0, live_datagrams: 4, signals: 0, stop: StopAt::NetEvent(8), cb_micros: 100, inflight: false, pre_session: true, live_session_stop: false, flood: false, timer_churn: false, pre_flood: false });
+        scs.push(Sc { mode, pre_datagrams: 0, live_datagrams: 3, signals: 2, stop: StopAt::NetEvent(99), cb_micros: 0, inflight: false, pre_session: false, live_session_stop: true, flood: false, timer_churn: false, pre_flood: false });
+        scs.push(Sc { mode, pre_datagrams: 2, live_datagrams: 5, signals: 3, stop: StopAt::External(120), cb_micros: 100, inflight: false, pre_session: false, live_session_stop: false, flood: true, timer_churn: false, pre_flood: false });
+        scs.push(Sc { mode, pre_datagrams: 2, live_datagrams: 5, signals: 3, stop: StopAt::NetEvent(4), cb_micros: 100, inflight: false, pre_session: false, live_session_stop: false, flood: false, timer_churn: true, pre_flood: false });
+        scs.push(Sc { mode, pre_datagrams: 0, live_datagrams: 4, signals: 3, stop: StopAt::Signal(1), cb_micros: 0, inflight: false, pre_session: false, live_session_stop: false, flood: true, timer_churn: true, pre_flood: false });
         // a long live burst handled by a slow callback (hundreds of events out of single polls) while signals fire
-        scs.push(Sc { mode, pre_datagrams: 0, live_datagrams: 260, signals: 24, stop: StopAt::NetEvent(259), cb_micros: 250, inflight: false, pre_session: false, live_session_stop: false, flood: false, timer_churn: false });
+        scs.push(Sc { mode, pre_datagrams: 0, live_datagrams: 260, signals: 24, stop: StopAt::NetEvent(259), cb_micros: 250, inflight: false, pre_session: false, live_session_stop: false, flood: false, timer_churn: false, pre_flood: false });
+        scs.push(Sc { mode, pre_datagrams: 3, live_datagrams: 4, signals: 2, stop: StopAt::External(400), cb_micros: 0, inflight: false, pre_session: false, live_session_stop: false, flood: false, timer_churn: false, pre_flood: true });
+        // more cached events than any fixed small capacity
+        scs.push(Sc { mode, pre_datagrams: if a.thorough { 3000 } else { 1100 }, live_datagrams: 5, signals: 2, stop: StopAt::External(700), cb_micros: 0, inflight: false, pre_session: false, live_session_stop: false, flood: false, timer_churn: false, pre_flood: false });
         // a long start-up cache, a callback slow enough for the live traffic to arrive during the replay
-        scs.push(Sc { mode, pre_datagrams: 300, live_datagrams: 30, signals: 4, stop: StopAt::NetEvent(329), cb_micros: 150, inflight: false, pre_session: false, live_session_stop: false, flood: false, timer_churn: false });
-        scs.push(Sc { mode, pre_datagrams: 20, live_datagrams: 40, signals: 20, stop: StopAt::NetEvent(45), cb_micros: 100, inflight: false, pre_session: false, live_session_stop: false, flood: false, timer_churn: false });
-        scs.push(Sc { mode, pre_datagrams: 6, live_datagrams: 30, signals: 30, stop: StopAt::External(40), cb_micros: 500, inflight: false, pre_session: false, live_session_stop: false, flood: false, timer_churn: false });
-        scs.push(Sc { mode, pre_datagrams: 0, live_datagrams: 30, signals: 9, stop: StopAt::Signal(8), cb_micros: 2000, inflight: false, pre_session: false, live_session_stop: false, flood: false, timer_churn: false });
+        scs.push(Sc { mode, pre_datagrams: 300, live_datagrams: 30, signals: 4, stop: StopAt::NetEvent(329), cb_micros: 150, inflight: false, pre_session: false, live_session_stop: false, flood: false, timer_churn: false, pre_flood: false });
+        scs.push(Sc { mode, pre_datagrams: 20, live_datagrams: 40, signals: 20, stop: StopAt::NetEvent(45), cb_micros: 100, inflight: false, pre_session: false, live_session_stop: false, flood: false, timer_churn: false, pre_flood: false });
+        scs.push(Sc { mode, pre_datagrams: 6, live_datagrams: 30, signals: 30, stop: StopAt::External(40), cb_micros: 500, inflight: false, pre_session: false, live_session_stop: false, flood: false, timer_churn: false, pre_flood: false });
+        scs.push(Sc { mode, pre_datagrams: 0, live_datagrams: 30, signals: 9, stop: StopAt::Signal(8), cb_micros: 2000, inflight: false, pre_session: false, live_session_stop: false, flood: false, timer_churn: false, pre_flood: false });
         for _ in 0..(if a.thorough { 20 } else { 2 }) {
             scs.push(Sc { mode, pre_datagrams: r.below(12) as usize, live_datagrams: r.below(30) as usize, signals: r.below(15) as usize,
-                stop: if r.chance(1, 2) { StopAt::NetEvent(r.below(20) as usize) } else { StopAt::Signal(r.below(10) as usize) }, cb_micros: *r.pick(&[0u64, 100, 1000]), inflight: r.chance(1, 2), pre_session: r.chance(1, 3), live_session_stop: false, flood: r.chance(1, 4), timer_churn: r.chance(1, 4) });
+                stop: if r.chance(1, 2) { StopAt::NetEvent(r.below(20) as usize) } else { StopAt::Signal(r.below(10) as usize) }, cb_micros: *r.pick(&[0u64, 100, 1000]), inflight: r.chance(1, 2), pre_session: r.chance(1, 3), live_session_stop: false, flood: r.chance(1, 4), timer_churn: r.chance(1, 4), pre_flood: r.chance(1, 5) });
         }
     }
     // scenarios share the process-wide hook trace: one at a time
